@@ -25,8 +25,8 @@ from . import graphref as gr
 
 PROP = "C07"
 TIERS = {
-    "quick": {"runs": 15000, "wall": 75, "chunk": 80},
-    "thorough": {"runs": 400000, "wall": 840, "chunk": 250},
+    "quick": {"runs": 40000, "wall": 75, "chunk": 150},
+    "thorough": {"runs": 1200000, "wall": 840, "chunk": 400},
 }
 STEP_CAP = 500000
 SHRINK_BUDGET = 300
